@@ -234,3 +234,29 @@ def simulate_calls(scenario, num=20, depth=40, seed=1, maxcalls=6, timeout=300):
         return seqs
     finally:
         shutil.rmtree(d, ignore_errors=True)
+
+
+def validate_reports(problems, records, timeout=3600, workers=8):
+    """Per record: list of failing clause names (spec/ReportTrace.tla)."""
+    if not records:
+        return [], {"generated": 0, "distinct": 0, "wall_s": 0}
+    d = tempfile.mkdtemp(prefix="rep_")
+    try:
+        pf = os.path.join(d, "problems.json")
+        rf = os.path.join(d, "records.json")
+        with open(pf, "w") as f:
+            json.dump(problems, f)
+        with open(rf, "w") as f:
+            json.dump(records, f)
+        lines, stats = run_tlc("ReportTrace", "ReportTrace.cfg", {"PROBLEMS_FILE": pf, "REPORT_FILE": rf},
+                               workers=workers, timeout=timeout)
+        res = [None] * len(records)
+        for rec in _json_lines(lines):
+            if "rid" in rec:
+                res[rec["rid"] - 1] = {"failing": sorted(rec["failing"]), "nclauses": rec["nclauses"]}
+        for i, r in enumerate(res):
+            if r is None:
+                raise TLCError(f"no verdict for report record {i + 1}")
+        return res, stats
+    finally:
+        shutil.rmtree(d, ignore_errors=True)
